@@ -48,6 +48,12 @@ def rule_paired_borders(chk, prog):
             if n.get("k") == "VarDecl" and n.get("did") in sal:
                 i = strip_casts(sal[n["did"]])
                 if i is not None and i.get("ref") == static:
+                    if n.get("static") or n.get("sc") == "static":
+                        # a static local is initialised on the FIRST call only: it is not the border at entry of later calls
+                        r.count()
+                        r.bad("%s-border saved per call" % axis, fn.loc(n), "`%s` is a static local: it holds %s as it was on the first call of "
+                              "the process, and later calls restore (and compute with) that stale value" % (n.get("name"), static))
+                        continue
                     saved.add(n["did"])
         sets = [n for n in calls(fn) if n.get("cname") == setter]
         direct = [node for lhs, node, op in writes(fn) if written_field(lhs)[0] == static]
@@ -343,6 +349,42 @@ def rule_order(chk, prog):
     ptrorder.check_comparator(r, prog, "vpsc::CmpNodePos::operator()")
 
 
+def rule_neighbour_twins(chk, prog):
+    r = chk.rule("NEIGHBOUR-TWINS", "getLeftNeighbours / getRightNeighbours (the neighbour lists of the first horizontal pass) classify a scan-line "
+                 "node by the same tests in the same order -- stop at the first node without x-overlap, otherwise take it when overlapX <= "
+                 "overlapY -- and differ only in the direction they walk the scan line; single-assignment locals are inlined before comparing", floor=1)
+    sides = {}
+    for q in ("vpsc::getLeftNeighbours", "vpsc::getRightNeighbours"):
+        fn = prog.fn(q)
+        sal = {d: i for d, i in single_assignment_locals(fn).items() if i is None or not re.search(r"\bi\b", norm(i))}   # (keep `u = *i` by name)
+        loops = [n for n in fn.nodes() if n.get("k") in ("WhileStmt", "ForStmt")]
+        if len(loops) != 1:
+            raise AnalysisBroken("%s: expected one loop over the scan line" % q)
+        from ..facts import walk as _walk
+        steps = []
+        for n in _walk(loops[0]["body"]):
+            if n.get("k") == "IfStmt":
+                cond = norm(n["cond"], sal)
+                body = n.get("then") or {}
+                acts = []
+                for x in _walk(body):
+                    if x.get("k") == "ReturnStmt":
+                        acts.append("return")
+                    elif x.get("k") == "CXXMemberCallExpr" and str(x.get("cname", "")).endswith("::insert"):
+                        acts.append("insert(%s)" % norm(call_args(x)[0], sal))
+                steps.append((re.sub(r"\b(left|right)v\b", "V", cond), tuple(acts), n.get("else") is not None))
+        sides[q] = (fn, steps)
+    (fl, sl), (fr, sr) = sides["vpsc::getLeftNeighbours"], sides["vpsc::getRightNeighbours"]
+    r.count()
+    if not sl:
+        raise AnalysisBroken("getLeftNeighbours: no classification tests found")
+    if sl != sr:
+        diff = [(a, b) for a, b in zip(sl, sr) if a != b] or [(sl, sr)]
+        r.bad("left / right neighbour classification", fr.where(), "the two walks classify differently: left %s, right %s" % (diff[0][0], diff[0][1]))
+    else:
+        r.ok("left / right neighbour classification", fl.where(), "%d tests" % len(sl))
+
+
 def run(chk):
     prog = chk.load()
     PROG[0] = prog
@@ -352,6 +394,7 @@ def run(chk):
     rule_writers_reach(chk, prog, cg)
     rule_gap_shape(chk, prog)
     rule_order(chk, prog)
+    rule_neighbour_twins(chk, prog)
     from .c01 import rule_solve_uses_satisfy
     rule_solve_uses_satisfy(chk, prog)       # removeoverlaps publishes what Solver::solve leaves in finalPosition
     from ..rules import mirrors
